@@ -295,6 +295,7 @@ func c08(p *model.Prog, r *report.Result) {
 	}
 	r.Check(sizes[11] && sizes[7] && sizes[3] && sizes[4], "C08.R4", fkey(runLoop, "layout", "header-sizes"), p.Pos(runLoop.Pos()), "reader consumes 11/7/3 header bytes and 4 extended bytes", "the reader's per-format header sizes differ from 11/7/3(+4)")
 	c08r56(p, r, calc, runLoop)
+	c08r7(p, r, runLoop)
 }
 
 // c08r56 adds the basic-header byte rule (R5) and the reader's absolute/delta typestate (R6).
@@ -481,6 +482,55 @@ func c08r56(p *model.Prog, r *report.Result, calc, runLoop *ssa.Function) {
 	}
 	if nAcc != 1 {
 		r.Bad("C08.R6", "floor-acc", p.Pos(runLoop.Pos()), fmt.Sprintf("expected exactly one TimestampAbs += timestamp, found %d", nAcc))
+	}
+}
+
+// c08r7: a buffer that only references bytes (naza NewBufferRefBytes leaves read and write
+// positions at zero) is marked readable before the sub-message is handed to the callback.
+func c08r7(p *model.Prog, r *report.Result, runLoop *ssa.Function) {
+	r.Rule("C08.R7", "in ChunkComposer.RunLoop a StreamMsg.buff that is built by a nazabytes constructor which does not set the write position (NewBufferRefBytes: only 'core' is initialised, so Len()==0) is advanced by Flush(<sub-message length>) on every path before the message callback: an aggregate sub-message is delivered with its payload, not with an empty one")
+	ctor := p.FuncObj("naza/pkg/nazabytes", "NewBufferRefBytes")
+	ctorFn := p.Func("naza/pkg/nazabytes", "NewBufferRefBytes")
+	// does the constructor itself set wpos? (re-derived from the dependency's source on every run)
+	setsW := false
+	model.EachInstr(ctorFn, func(in ssa.Instruction) {
+		if st, ok := in.(*ssa.Store); ok {
+			if f := model.FieldOf(st.Addr); f != nil && f.Name() == "wpos" {
+				setsW = true
+			}
+		}
+	})
+	buffF := p.Field("pkg/rtmp", "StreamMsg", "buff")
+	flush := p.MethodObj("naza/pkg/nazabytes", "Buffer", "Flush")
+	n := 0
+	for _, st := range model.FieldStores(runLoop, buffF) {
+		call, ok := st.Val.(*ssa.Call)
+		if !ok || !model.SameFunc(model.CalleeObj(call.Common()), ctor) {
+			continue
+		}
+		n++
+		if setsW {
+			r.Ok("C08.R7", fkey(runLoop, "aggregate", "payload-readable"), p.InstrPos(st), "the constructor sets the write position itself")
+			continue
+		}
+		owner := storeBase(st) // &X.msg
+		bad := model.PathQuery{From: st, Stop: func(in ssa.Instruction) bool {
+			ci, ok := in.(ssa.CallInstruction)
+			if !ok || !model.SameFunc(model.CalleeObj(ci.Common()), flush) {
+				return false
+			}
+			rc := receiver(ci.Common())
+			fp, ok := loadPath(rc)
+			_ = owner
+			return ok && fp.Fields[len(fp.Fields)-1] == buffF
+		}, Target: func(in ssa.Instruction) bool {
+			ci, ok := in.(ssa.CallInstruction)
+			return ok && !ci.Common().IsInvoke() && ci.Common().Value == ssa.Value(runLoop.Params[2])
+		}}.Find(runLoop)
+		r.Check(bad == nil, "C08.R7", fkey(runLoop, "aggregate", "payload-readable"), p.InstrPos(st), "Flush(n) marks the referenced bytes readable before the callback", "the sub-message buffer references the payload bytes but its write position stays 0: the callback receives a message whose payload is empty (Len()==0) although the header says MsgLen bytes")
+	}
+	if n < 1 {
+		r.Bad("C08.R7", "floor", p.Pos(runLoop.Pos()), "no StreamMsg.buff built from NewBufferRefBytes found in the aggregate branch")
 	}
 }
 
